@@ -61,7 +61,8 @@ class Contract:
                  ghost=None, axioms=(), method_of=None, notes='', drop_calls=(),
                  expect_obligations=None, cover=True, exc_mode='auto', spec_module=None,
                  safety=True, witness=None, merge=True, yield_each=(), yield_key=None,
-                 concrete_ensures=(), witness_library=(), yield_each_local=(), region=None, loop_each=None):
+                 concrete_ensures=(), witness_library=(), yield_each_local=(), region=None, loop_each=None,
+                 concrete_only=False):
         self.id = id
         self.file = file
         self.qualname = qualname
@@ -114,6 +115,7 @@ class Contract:
         self.yield_key = yield_key              # key(c): proved fresh at every yield (=> pairwise distinct)
         self.witness_library = list(witness_library)   # concrete inputs tried on the real code when a proof fails
         self.concrete_ensures = list(concrete_ensures)   # executable consequences, used by replay only
+        self.concrete_only = concrete_only   # replay judges by concrete_ensures alone (spec terms not executable)
 
 
 def callee_of(contract, name=None, pure=True, assumed=False, raises=()):
